@@ -271,6 +271,27 @@ def generate(rng: random.Random, tier: str):
             for _ in range(10 if quick else 30):
                 st = S.adversarial_step(rng, g, doc, docs)
                 yield decode_step_case(fam, mutate_step_json(rng, rt(st.to_json())))
+    # negative open depths in the JSON of a slice (appended stream): Slice.from_json must refuse them - a replace step
+    # decoded from {"openStart": -1, "openEnd": -1} used to apply with IndexError (fixed in /repo; a slice that decodes with
+    # a negative depth is printed as an internal error and disagrees with the model's ErrValue)
+    for fam in gen.FAMILY:
+        g, docs = S.family_docs(rng, fam, 3 if quick else 20)
+        for doc in docs:
+            done = 0
+            for _ in range(40):
+                st = S.adversarial_step(rng, g, doc, docs)
+                j = rt(st.to_json())
+                if not isinstance(j.get("slice"), dict):
+                    continue
+                for a, c in ((-1, -1), (-1, None), (None, -2), (-3, 1)):
+                    j2 = json.loads(json.dumps(j))
+                    for k, v in (("openStart", a), ("openEnd", c)):
+                        if v is not None:
+                            j2["slice"][k] = v
+                    yield decode_step_case(fam, j2)
+                done += 1
+                if done >= (2 if quick else 6):
+                    break
 
 
 def rebuild(desc):
